@@ -10,7 +10,9 @@ The theorems are stated about the definitions REGENERATED from the repository's 
 (`Mieru.Gen.Arith`, `Mieru.Gen.Consts`), so an edit to the size arithmetic that breaks the bound
 breaks these proofs at `lake build` time.
 
-`datagramLen` is the buffer arithmetic of `PacketUnderlay.writeOneSegment`:
+`datagramLen`, the padding budgets, the piggyback decision and the fragment loop are hand-written and PROVED
+EQUAL to the definitions regenerated from `writeOneSegment` / `Write` / `writeChunk` (`Mieru.Gen.Wire`, second half
+of this file). `datagramLen` is the buffer arithmetic of `PacketUnderlay.writeOneSegment`:
 `make([]byte, encryptedMetadataLen + len(padding1) + wirePayloadLen + len(padding2))` with
 `encryptedMetadataLen = MetadataLength + NonceSize + Overhead` and
 `wirePayloadLen = payloadLen + Overhead` when there is a payload, else 0.
